@@ -94,7 +94,8 @@ class Printer:
     def __init__(self, wrap_at=None):
         self.toks = []
         self.noline = set()
-        self.wrap_at = wrap_at          # pre-order index of the expression node to wrap in redundant parentheses
+        # pre-order indices of the expression nodes to wrap in redundant parentheses (an int or a collection)
+        self.wrap_at = () if wrap_at is None else ((wrap_at,) if isinstance(wrap_at, int) else tuple(wrap_at))
         self.n_expr = 0
 
     # ---- helpers
@@ -110,7 +111,7 @@ class Printer:
         idx = self.n_expr
         self.n_expr += 1
         need = level(node) < min_level
-        extra = idx == self.wrap_at
+        extra = idx in self.wrap_at
         if need:
             self.t("(", noline)
             noline = False
@@ -236,10 +237,10 @@ class Printer:
                 idx = self.n_expr
                 self.n_expr += 1
                 t("(", noline)
-                if idx == self.wrap_at:
+                if idx in self.wrap_at:
                     t("(")
                 self.bare(node.object)
-                if idx == self.wrap_at:
+                if idx in self.wrap_at:
                     t(")")
                 t(")")
             else:
